@@ -22,7 +22,7 @@ class SimDeadlock(RuntimeError):
 
 
 class Actor:
-    __slots__ = ("aid", "name", "sem", "state", "prio", "frozen", "thread", "lines", "in_task", "task_lines")
+    __slots__ = ("aid", "name", "sem", "state", "prio", "frozen", "thread", "lines", "in_task", "task_lines", "rv_code", "seen_codes", "rv_wait")
 
     def __init__(self, aid, name):
         self.aid = aid
@@ -35,6 +35,9 @@ class Actor:
         self.lines = 0
         self.in_task = None
         self.task_lines = 0
+        self.rv_code = None
+        self.seen_codes = set()
+        self.rv_wait = None
 
 
 # ---------------------------------------------------------------------------------------
@@ -121,6 +124,7 @@ class Sched:
                 1 + sim.choose(max(exp, 2), "pct-change") for _ in range(int(cfg.get("d", 2)))
             )
         self.threads = []
+        self.pauses = {}
         self.active = False
 
     # -- decisions ---------------------------------------------------------------------
@@ -151,6 +155,8 @@ class Sched:
                 a.frozen -= 1
         if thawed:
             others = thawed
+        elif not forced:
+            return current          # everybody else is parked on purpose: only a forced pick wakes them
         if forced:
             if not others:
                 raise SimDeadlock(f"no runnable actor at {why}")
@@ -290,6 +296,7 @@ class Sched:
             key = a[0]
             actor.in_task = str(key)
             actor.task_lines = 0
+            actor.seen_codes = set()
             self.sim.event("task", actor.name, str(key))
             self.sim.count("tasks")
             self.point(actor, "task-start")
@@ -386,6 +393,20 @@ class Sched:
         actor.lines += 1
         actor.task_lines += 1
         why = "line:%s:%d" % (code.co_filename.rsplit("/", 1)[-1], line)
+        p = self.pauses.get(actor.aid)
+        if p is not None and p[0] is code and not self.capped:
+            p[1] -= 1
+            if p[1] <= 0:
+                del self.pauses[actor.aid]
+                if p[2].state == "runnable" and p[2].in_task is not None:
+                    actor.frozen = 100000
+                    actor.rv_wait = (p[2], code)
+                    self.sim.count("atomicity_pauses")
+                    nxt = self._pick(actor, why + ":pause", forced=True)
+                    self._switch(actor, nxt, why + ":pause")
+                    actor.rv_wait = None
+                    actor.frozen = 0
+                    return
         if self.strategy == "lockstep" and actor.task_lines == 1 and not self.capped:
             # rendezvous: a task entering its kernel waits for another task to get there too, so that
             # both then walk through the same statements side by side (aligned start)
@@ -403,6 +424,51 @@ class Sched:
                     self._switch(actor, nxt, why + ":rv")
                     return
         self.point(actor, why)
+
+    def _start_cb(self, code, offset):
+        """Function-entry rendezvous (lockstep strategy): a task entering a wavespectra function waits a
+        little for another task to enter the *same* function, then both walk through it side by side.
+        A function racing with itself on shared state is the typical Python-level race."""
+        actor = self.idents.get(threading.get_ident())
+        if actor is None or actor is self.main or actor is not self.current or actor.in_task is None or self.capped:
+            return
+        if id(code) in actor.seen_codes:
+            return                      # only the first entry of each function within a task
+        actor.seen_codes.add(id(code))
+        parked = [a for a in self._runnable() if a is not actor and a.rv_code is not None and a.frozen > 0]
+        waiting = [a for a in parked if a.rv_code is code]
+        if waiting:
+            self.sim.count("rendezvous_func_met")
+            for a in waiting:
+                a.rv_code = None
+                a.frozen = 0
+            # both are at the entry of the same function.  Atomicity probe: one of them will pause after a few
+            # lines *inside* the function until the other has left it (check ... [peer runs the whole function] ... use)
+            if self.sim.choose(2, "rv-probe"):
+                peer = waiting[0]
+                victim, other = (actor, peer) if self.sim.choose(2, "rv-victim") else (peer, actor)
+                self.pauses[victim.aid] = [code, 1 + self.sim.choose(12, "rv-offset"), other]
+            return
+        if parked:
+            return                      # somebody is already waiting elsewhere: keep going so that we can get there
+        others = [a for a in self._runnable() if a is not actor and a.in_task is not None]
+        if not others:
+            return
+        actor.rv_code = code
+        actor.frozen = 100000      # until another task enters the same function, or nobody else can run
+        self.sim.count("rendezvous_func")
+        nxt = self._pick(actor, "enter:" + code.co_name + ":rv", forced=True)
+        self._switch(actor, nxt, "enter:" + code.co_name + ":rv")
+        actor.rv_code = None
+
+    def _ret_cb(self, code, offset, retval):
+        actor = self.idents.get(threading.get_ident())
+        if actor is None or actor is not self.current:
+            return
+        for a in self.actors:
+            if a.rv_wait is not None and a.rv_wait[0] is actor and a.rv_wait[1] is code:
+                a.frozen = 0        # the peer has left the function: the paused task may go on
+                self.sim.count("atomicity_pauses_released")
 
     def _c_cb(self, site):
         actor = self.idents.get(threading.get_ident())
@@ -432,8 +498,13 @@ class Sched:
             pass
         mon.register_callback(TOOL_ID, mon.events.LINE, self._line_cb)
         self._codes = wavespectra_codes(self.repo) if self.strategy != "solo" else []
+        ev = mon.events.LINE
+        if self.strategy == "lockstep" and self.cfg.get("rv_funcs"):
+            mon.register_callback(TOOL_ID, mon.events.PY_START, self._start_cb)
+            mon.register_callback(TOOL_ID, mon.events.PY_RETURN, self._ret_cb)
+            ev = ev | mon.events.PY_START | mon.events.PY_RETURN
         for c in self._codes:
-            mon.set_local_events(TOOL_ID, c, mon.events.LINE)
+            mon.set_local_events(TOOL_ID, c, ev)
         try:
             from wavespectra.partition import specpart
 
@@ -453,6 +524,8 @@ class Sched:
         for c in self._codes:
             mon.set_local_events(TOOL_ID, c, 0)
         mon.register_callback(TOOL_ID, mon.events.LINE, None)
+        mon.register_callback(TOOL_ID, mon.events.PY_START, None)
+        mon.register_callback(TOOL_ID, mon.events.PY_RETURN, None)
         if self._specpart is not None:
             self._specpart._verif_set_hook(None)
             held, free = self._specpart._verif_stats()
